@@ -38,8 +38,17 @@ func (c CanonPath) Tag() uint32 {
 			return c.ASPath[i].ASNs[n-1]
 		}
 	}
+	for _, l := range c.LargeComms {
+		if l.G == tagCommunityAdmin {
+			return l.L2
+		}
+	}
 	return 0
 }
+
+// tagCommunityAdmin marks the large community that carries the tag of an announcement
+// that has no AS_PATH to carry it.
+const tagCommunityAdmin = 64999
 
 func (c CanonPath) ASPathString() string {
 	var sb strings.Builder
